@@ -20,12 +20,16 @@ def dotted(e):
 def eval_call(ex, e, st):
     Res, bind = X.Res, X.bind
     fn = e.func
-    if any(isinstance(a, ast.Starred) for a in e.args) or any(k.arg is None for k in e.keywords):
-        # **kwargs / *args pass-through: only via an assumed contract that declares how it reads them
-        d = dotted(fn)
-        if d in CONTRACTS and getattr(CONTRACTS[d], 'star_ok', False):
-            return call_contract(ex, CONTRACTS[d], None, e, st, starred=True)
-        raise Unbound('star-args call (line %s)' % e.lineno)
+    if any(isinstance(a, ast.Starred) for a in e.args):
+        # f(self, *args, **kwargs) on a function VALUE whose contract ignores its arguments (decorators)
+        if isinstance(fn, ast.Name) and fn.id in st.loc and isinstance(st.loc[fn.id].t, TFun):
+            c = CONTRACTS.get(st.loc[fn.id].t.contract)
+            if c is not None and getattr(c, 'star_ok', False):
+                return apply_contract(ex, c, {'__callee__': st.loc[fn.id]}, st, e)
+        raise Unbound('*args call (line %s)' % e.lineno)
+    if any(k.arg is None for k in e.keywords):
+        # f(**rec): a record dict is expanded into the keywords it holds (absent key = parameter default)
+        return call_star(ex, e, st)
 
     # ---- plain names -----------------------------------------------------------------------
     if isinstance(fn, ast.Name):
@@ -34,6 +38,8 @@ def eval_call(ex, e, st):
             return [Res(st, NONE_V)]
         if n in st.loc:
             f = st.loc[n]
+            if isinstance(f.t, TGenFun):
+                return [Res(st, SV(ANY, fresh('gen', ANY.sort())))]   # creating a generator object runs nothing
             if isinstance(f.t, TFun) and f.t.contract:
                 return call_contract(ex, CONTRACTS[f.t.contract], None, e, st)
             raise Unbound('call of local %s' % n)
@@ -78,6 +84,10 @@ def eval_call(ex, e, st):
             return call_contract(ex, CONTRACTS[fv.t.contract], None, e, s, callee_val=fv)
         raise Unbound('call of a computed value of type %s (line %s)' % (fv.t, e.lineno))
     return bind(ex.ev(fn, st), g)
+
+
+class TGenFun(Ty):
+    name = 'generator-function'
 
 
 class TExc(Ty):
@@ -202,6 +212,8 @@ def dict_method(ex, o, m, vals, fn, e, s):
                 return [Res(s1, SV(ot, ot.dt.some(v.z))), Res(s2, SV(ot, ot.dt.none))]
             return [Res(s1, v), Res(s2, ex.coerce(dflt, ft, s2))]
         raise Unbound('record.get with computed key')
+    if m == 'keys' and isinstance(t, TRec):
+        return [Res(s, o)]     # only used for `key in d.keys()`
     if m == 'keys' and isinstance(t, TDict):
         return [Res(s, SV(t.keys_t, d_keys(t, o.z)))]
     if m == 'items' and isinstance(t, TDict):
@@ -394,6 +406,63 @@ BUILTINS = {
 # ----------------------------------------------------------------------------------------------
 # contract calls
 # ----------------------------------------------------------------------------------------------
+
+def call_star(ex, e, st):
+    Res, bind = X.Res, X.bind
+    fn = e.func
+    if len(e.keywords) != 1 or e.args:
+        raise Unbound('mixed ** call (line %s)' % e.lineno)
+    recv = None
+    d = dotted(fn)
+    if d in CONTRACTS and not (isinstance(fn, ast.Attribute) and isinstance(fn.value, ast.Name) and fn.value.id in st.loc):
+        c = CONTRACTS[d]
+        recv_rs = [Res(st, None)]
+    elif isinstance(fn, ast.Attribute):
+        recv_rs = ex.ev(fn.value, st)
+        c = None
+    else:
+        raise Unbound('** call of %s' % ast.unparse(fn))
+
+    def go(rv, s):
+        cc = c
+        if cc is None:
+            if not isinstance(rv.t, TRef):
+                raise Unbound('** call on %s' % rv.t)
+            cc = find_method_contract(rv.t.cls, fn.attr)
+            if cc is None:
+                raise Unbound('method %s.%s: no contract' % (rv.t.cls, fn.attr))
+
+        def with_rec(rec, s2):
+            if not isinstance(rec.t, TRec):
+                raise Unbound('** of %s' % rec.t)
+            args = {}
+            pn = list(cc.params)
+            if pn and pn[0] == 'self':
+                args['self'] = ex.coerce(rv, cc.params['self'], s2)
+            if len(pn) == (2 if 'self' in args else 1) and isinstance(cc.params[pn[-1]], TRec):
+                # the callee itself takes **kw: pass the record through
+                args[pn[-1]] = ex.coerce(rec, cc.params[pn[-1]], s2)
+                return apply_contract(ex, cc, args, s2, e)
+            for p in pn:
+                if p == 'self':
+                    continue
+                dflt = cc.defaults.get(p)
+                if p in rec.t.fields:
+                    has = rec.t.has(rec.z, p)
+                    v = SV(rec.t.fields[p], rec.t.get(rec.z, p))
+                    v = ex.coerce(v, cc.params[p], s2)
+                    if dflt is None:
+                        raise Unbound('** expansion: parameter %s has no default' % p)
+                    dv = ex.coerce(dflt, cc.params[p], s2)
+                    args[p] = SV(cc.params[p], z3.If(has, v.z, dv.z))
+                elif dflt is not None:
+                    args[p] = ex.coerce(dflt, cc.params[p], s2)
+                else:
+                    raise Unbound('** expansion: missing %s' % p)
+            return apply_contract(ex, cc, args, s2, e)
+        return bind(ex.ev(e.keywords[0].value, s), with_rec)
+    return bind(recv_rs, go)
+
 
 def call_contract(ex, c, recv, e, st, starred=False, callee_val=None):
     """assert pre; havoc modifies; assume post.  Exceptional exits per c.raises."""
